@@ -23,21 +23,25 @@ def gen_graph(rng, n, cyclic):
     return edges
 
 
-def render(kind, edges, order):
-    out = ''
+def render(kind, edges, order, rng=None):
+    parts = []
     for i in order:
         deps = sorted(edges[i])
         if kind == 'const':
             expr = ' + '.join(['%d' % (i + 1)] + ['C%d' % d for d in deps])
-            out += 'const C%d: i32 = %s;\n\n' % (i, expr)
+            parts.append('const C%d: i32 = %s;\n\n' % (i, expr))
         else:
             members = ''.join('\tm%d: S%d,\n' % (d, d) for d in deps) + '\tv: i32,\n'
-            out += 'struct S%d\n{\n%s}\n\n' % (i, members)
-    if kind == 'const':
-        out += 'fn main() -> i32\n{\n\treturn: C%d\n}\n' % max(edges)
+            parts.append('struct S%d\n{\n%s}\n\n' % (i, members))
+    # functions (one calls the other) stand anywhere among the declarations: their position must not matter either
+    main = 'fn main() -> i32\n{\n\treturn: %s + helper()\n}\n\n' % ('C%d' % max(edges) if kind == 'const' else '0')
+    helper = 'fn helper() -> i32\n{\n\treturn: 1\n}\n\n'
+    if rng is None:
+        parts += [main, helper]
     else:
-        out += 'fn main() -> i32\n{\n\treturn: 0\n}\n'
-    return out
+        for f in (main, helper):
+            parts.insert(rng.randint(0, len(parts)), f)
+    return ''.join(parts)
 
 
 def lengths_module(rng, cyclic):
@@ -149,7 +153,7 @@ def search(deadline, rng, graphs=60, orders=6):
         for order in perms[:orders]:
             if time.time() > deadline:
                 return None
-            src = render(kind, edges, order)
+            src = render(kind, edges, order, rng)
             r = replayrun.run('alpha', src.encode(), timeout=20)
             if not verdict_ok(cyclic, r):
                 return {'mode': 'alpha', 'input_utf8_lossy': src, 'input_hex': src.encode().hex(), 'observed': r,
